@@ -490,12 +490,15 @@ Proof.
       change (c :: ds ++ w) with ((c :: ds) ++ w). rewrite <- Eu, LN.
       subst z. destruct (dec_value u <? 2 ^ 63)%Z eqn:L1.
       * rewrite (WS_only_space _ _ Hw). reflexivity.
-      * destruct (dec_value u =? 2 ^ 63)%Z eqn:L2; [|lia].
-        rewrite (WS_only_space _ _ Hw). f_equal. f_equal. lia.
+      * destruct (dec_value u =? 2 ^ 63)%Z eqn:L2;
+          [|exfalso; clear -Ok L1 L2; change (2 ^ 63)%Z with 9223372036854775808%Z in *; lia].
+        rewrite (WS_only_space _ _ Hw). f_equal. f_equal. clear -L2. change (2 ^ 63)%Z with 9223372036854775808%Z in *. lia.
     + unfold lex_core. rewrite Eu at 1. cbn [app]. rewrite D1, D2. cbn [orb].
-      unfold starts_number. rewrite Hc. cbn [orb].
-      change (c :: ds ++ w) with ((c :: ds) ++ w). rewrite <- Eu, LN.
-      subst z. destruct (dec_value u <? 2 ^ 63)%Z eqn:L1; [|lia].
+      assert (Hst : starts_number (u ++ w) = true)
+        by (rewrite Eu; cbn [app]; unfold starts_number; rewrite Hc; reflexivity).
+      rewrite Hst, LN.
+      subst z. destruct (dec_value u <? 2 ^ 63)%Z eqn:L1;
+        [|exfalso; clear -Ok L1; change (2 ^ 63)%Z with 9223372036854775808%Z in *; lia].
       rewrite (WS_only_space _ _ Hw). reflexivity.
   - (* real *)
     destruct (classify_real _ Cu) as (ds & fs & tail & Eu & Hds & Hne & Hfs & Htl).
@@ -527,7 +530,7 @@ Proof.
       { rewrite Eh. cbn [app]. exists h, (r ++ w). split; [reflexivity|].
         destruct Hh as [Hd|[-> _]]; [destruct (digit_facts _ Hd) as (D1 & D2 & _); auto|split; reflexivity]. }
       destruct Hns as (h' & r'' & E' & M1 & M2).
-      unfold lex_core. rewrite E' at 1. rewrite M1, M2. cbn [orb]. rewrite <- E', Hst, LN, (WS_only_space _ _ Hw). reflexivity.
+      unfold lex_core. rewrite E' at 1. cbv iota. rewrite M1, M2. cbn [orb]. rewrite Hst, LN, (WS_only_space _ _ Hw). reflexivity.
 Qed.
 
 Theorem shortcut_sound : forall (ovf : bool) (v : bytes) (l : lit),
